@@ -27,3 +27,10 @@ PROPS['C08'] = A(level='model_checking',
     bounds=A(quick='N=5 nodes, every priority multiset over {0,1,2}; push/pop/remove histories of any length (fixpoint)',
              thorough='N=7 nodes, every priority multiset over {0,1,2}; fixpoint'),
     assumptions=TRUST)
+
+SEQ_H = [A(src='harness/c13_seq.cpp', san='asan')]
+PROPS['C13'] = A(level='model_checking', harnesses=SEQ_H, budget=A(quick=150, thorough=1500),
+    bounds=A(quick='two slots per container type; vector<int|Tracked> depth 5 sizes<=7; small_vector<.,2|4> depth 5; dyn_array depth 4 sizes 0..3; stack depth 10; list depth 9; intrusive_list fixpoint over 5 nodes/2 lists',
+             thorough='vector depth 7 sizes<=15; small_vector depth 6-7 sizes<=11; dyn_array depth 5; stack depth 16; list depth 14; intrusive_list fixpoint over 6 nodes'),
+    assumptions=TRUST)
+PROPS['C13']['harnesses'] = SEQ_H + [A(src='harness/c13_ilist.cpp', san='asan')]
